@@ -52,7 +52,15 @@ def gen_history(rng: Rng, world: dict) -> list[dict]:
     n = rng.randint(3, 6)
     distinct: list[dict] = []
     whole_at = rng.randrange(n) if rng.chance(0.6) else -1
+    nested_cfgs = sorted("proj/%s/.sqlfluff" % d for d in world["cfg"]["nested"])
+    poison_at = rng.randrange(n) if nested_cfgs and rng.chance(0.3) else -1
     for step in range(n):
+        if step == poison_at:
+            # a lint during which ONE nested config file cannot be read, once (transient EIO / EACCES /
+            # ENOENT on its n-th open). Its own outcome is not judged; whatever it leaves behind in the
+            # process is: every later op must still equal its fresh-process twin
+            ops.append({"op": "poison", "paths": ["."], "unreadable": rng.choice(nested_cfgs), "nth": rng.choice([0, 1, 1, 2]),
+                        "errno": rng.choice(["EIO", "EACCES", "ENOENT"]), "shared_linter": rng.chance(0.5)})
         if step == whole_at:
             # the commonest real history: every file of the project through ONE process and ONE Linter
             if rng.chance(0.6):
@@ -281,6 +289,17 @@ def run_one(ctx: Any, seed: int, tier: str, replay: Optional[dict] = None) -> di
                 node.call("env", kind="evict")
                 faults["evict"] += 1
                 prefix.append("evict")
+                continue
+            if k == "poison":
+                pr = node.call("lint_paths", paths=op["paths"], processes=1, linter_handle="linter:shared" if op.get("shared_linter") else None,
+                               plan=[{"cls": "open_r", "path": op["unreadable"], "nth": op["nth"], "kind": "err", "errno": op["errno"]}])
+                if node.fired.get("err"):
+                    faults["transient_config_read_error"] += 1
+                    probes["poison_lint_" + ("raised" if "exception" in pr else "completed")] += 1
+                muts = [e for e in events if e and e[0] == "disk" and e[3] in MUTATING]
+                if muts:
+                    add("read-only-journal", "C32:mutating-op-during-lint", "op #%d (lint with an unreadable config file) performed mutating disk ops: %s" % (opi, [[m[3], m[4]] for m in muts[:5]]))
+                prefix.append("poison")
                 continue
             opkey = json.dumps(op, sort_keys=True)
             out = execute(node, op, world)
